@@ -263,9 +263,24 @@ def enumerate_mutants(prop):
         if k not in seen:
             seen.add(k)
             uniq.append(m)
+    seen_txt = {}
     for i, m in enumerate(uniq):
         m['id'] = i
+        t = (m['file'], m['func'], m['kind'], m['old'], m['new'])
+        m['ord'] = seen_txt.get(t, 0)
+        seen_txt[t] = m['ord'] + 1
     return uniq
+
+
+def stable_key(r, counter=None):
+    """Identifies a mutant independently of line numbers and offsets (the
+    repository changes under a long campaign)."""
+    t = (r['file'], r['func'], r['kind'], r['old'], r['new'])
+    if 'ord' in r:
+        return t + (r['ord'],)
+    n = counter.get(t, 0)
+    counter[t] = n + 1
+    return t + (n,)
 
 
 def make_copy(workdir):
@@ -427,14 +442,15 @@ def main():
     os.makedirs(OUT, exist_ok=True)
     done = {}
     if os.path.exists(path) and only is None:
+        cnt = {}
         for l in open(path):
             r = json.loads(l)
-            done[(r['file'], r['start'], r['end'], r['new'])] = r
+            done[stable_key(r, cnt)] = r
     todo = [m for m in ms if (only is None or m['id'] in only)
-            and (only is not None or (m['file'], m['start'], m['end'], m['new']) not in done)]
+            and (only is not None or stable_key(m) not in done)]
     if redo:
         todo = [m for m in ms
-                if done.get((m['file'], m['start'], m['end'], m['new']), {}).get('status') in redo]
+                if done.get(stable_key(m), {}).get('status') in redo]
         keep = [r for k, r in done.items() if r.get('status') not in redo]
         with open(path, 'w') as f:
             for r in keep:
